@@ -153,6 +153,10 @@ def pipeTarget (items : List (Option Str)) : List (Option Str) :=
   let c0 : Cfg := { pfx := [], suffix := [], stop := [] }
   (items.foldl (fun s it => push c0 s it) (init c0)).out
 
+/-- `pipe_to` into a handler that has its OWN configuration `cfg2` (two-stage pipe): its final state -/
+def pipeTargetCfg (cfg2 : Cfg) (items : List (Option Str)) : St :=
+  items.foldl (fun s it => push cfg2 s it) (init cfg2)
+
 /-! ### specification (written from the property statement) -/
 
 /-- cut at the first stop sequence, then remove the suffix -/
